@@ -20,7 +20,8 @@ from ..server.codec import codec_for
 SHARDS = {'quick': 8, 'thorough': 16}
 ORIGINS = ['early-listener', 'listener', 'reaction-login-disconnect',
            'reaction-status-json', 'decoder', 'exit-callback',
-           'outgoing-listener']
+           'outgoing-listener', 'status-phase-listener',
+           'outgoing-listener-then-disconnect']
 
 
 class E0(Exception):
@@ -75,6 +76,14 @@ def scenario(run, rng, origin, chain, final_mode, pv, hook_log):
                   'reaction-status-json': _json.JSONDecodeError,
                   'decoder': _struct.error}.get(origin) or \
         rng.choice((E0, E1, E2, F0, KeyError))
+    if origin == 'status-phase-listener':
+        # (EOFError is excluded: in the negotiation phase it is, by design,
+        # taken as 'server does not answer status queries' - see C15)
+        fault_type = rng.choice((ConnectionResetError, BrokenPipeError,
+                                 ConnectionAbortedError, OSError, E1,
+                                 TimeoutError))
+    import threading as _th
+    state_ev = {'entered': _th.Event(), 'disconnect_sent': _th.Event()}
     state = {'eof': {}, 'accepted': 0}
     may_reconnect = any(h['behaviour'] == 'reconnect' for h in chain) \
         or final_mode == 'reconnects'
@@ -85,7 +94,13 @@ def scenario(run, rng, origin, chain, final_mode, pv, hook_log):
         if hs is None:
             return
         first = io.index == 0
-        if hs['next_state'] == 1:
+        if hs['next_state'] == 1 and origin == 'status-phase-listener':
+            io.recv_frame()
+            io.send_frame(0x00, ref.encode_field('string', _json.dumps({
+                'version': {'name': 'vf', 'protocol': pv},
+                'players': {'max': 1, 'online': 0},
+                'description': {'text': 'x'}})))
+        elif hs['next_state'] == 1:
             io.recv_frame()
             io.send_frame(0x00, ref.encode_field('string', '{not json'))
         else:
@@ -106,6 +121,14 @@ def scenario(run, rng, origin, chain, final_mode, pv, hook_log):
                     io.send_frame(kid, b'\x01')        # truncated body
                 elif first and origin == 'outgoing-listener':
                     pass                                # client will talk
+                elif first and origin == 'outgoing-listener-then-disconnect':
+                    # the server's disconnect packet is already waiting in
+                    # the client's socket when the listener fails
+                    state_ev['entered'].wait(8.0)
+                    did, dp = codec.encode('play_disconnect',
+                                           {'reason': '"bye"'})
+                    io.send_frame(did, dp)
+                    state_ev['disconnect_sent'].set()
                 else:
                     did, dp = codec.encode('play_disconnect',
                                            {'reason': '"bye"'})
@@ -191,10 +214,28 @@ def scenario(run, rng, origin, chain, final_mode, pv, hook_log):
                 boom, clientbound.play.ChatMessagePacket,
                 early=origin == 'early-listener')
         fired = []
-        if origin == 'outgoing-listener':
+        if origin == 'status-phase-listener':
+            def boom_status(packet):
+                if not fired:
+                    fired.append(1)
+                    # later connects of this object go straight to login
+                    conn.allowed_proto_versions = {pv}
+                    raise fault_type('from a listener during negotiation')
+            # (early: the built-in reaction - which would itself start the
+            # login connection - has not run yet)
+            conn.register_packet_listener(
+                boom_status, clientbound.status.ResponsePacket, early=True)
+            # more than one allowed version: connect() first asks the server
+            conn.allowed_proto_versions = {pv, 47 if pv != 47 else 340}
+        if origin.startswith('outgoing-listener'):
             def boom_out(packet):
                 if not fired:
                     fired.append(1)
+                    if origin == 'outgoing-listener-then-disconnect':
+                        import time
+                        state_ev['entered'].set()
+                        state_ev['disconnect_sent'].wait(8.0)
+                        time.sleep(0.03)       # let the frame arrive
                     raise fault_type('from outgoing listener')
             conn.register_packet_listener(
                 boom_out, serverbound.play.ChatPacket, outgoing=True)
@@ -203,7 +244,7 @@ def scenario(run, rng, origin, chain, final_mode, pv, hook_log):
             conn.status(handle_status=False, handle_ping=False)
         else:
             conn.connect()
-        if origin == 'outgoing-listener':
+        if origin.startswith('outgoing-listener'):
             if not pc.wait_for(lambda: isinstance(conn.reactor,
                                                   C.PlayingReactor), 8.0):
                 return 'never reached play'
